@@ -178,10 +178,12 @@ def stratum_pair(rng, tmp, counters):
 
 def stratum_vcf_input(rng, tmp, counters):
     p = {"n_chrom": rng.choice([1, 2]), "chrom_len": 3000, "n_var": rng.randint(6, 24), "kinds": ["snv", "snv", "ins", "del", "mnp"],
-         "samples": ["sample%s" % c for c in "AB"[: rng.choice([1, 2])]], "depth": 1, "read_len": (100, 200), "het_prob": 0.9}
+         "samples": ["sample%s" % c for c in "ABCD"[: rng.choice([1, 2, 3, 4])]], "depth": 1, "read_len": (100, 200), "het_prob": 0.9,
+         "shared_positions": rng.random() < 0.5, "chain_contigs": rng.random() < 0.6}  # the same coordinates on every contig; a contig begins at the POS the previous one ended at
     sim = genome.simulate(rng, tmp, p)
     intag = rng.choice(["PS", "HP", "PS-without-PS-field"])
-    interleave = rng.random() < 0.5 and intag != "PS-without-PS-field"
+    # 2-6 interleaved series of phase sets (all of them fit under the default coverage cap of 15)
+    interleave = rng.choice([True, True, 4, 6]) if (rng.random() < 0.5 and intag != "PS-without-PS-field") else False
     doc, blocks = genome.truth_phased_doc(sim, rng, tag="PS" if intag.startswith("PS") else "HP", block_len=(1, 8), interleave=interleave,
                                           no_ps=(intag == "PS-without-PS-field"))
     pv = os.path.join(tmp, "phased_in.vcf")
